@@ -14,6 +14,8 @@ import WzVerif.Lemmas.RoutingRedirect
 import WzVerif.Lemmas.RoutingRender3
 import WzVerif.Lemmas.RoutingMatchBuild
 import WzVerif.Lemmas.RoutingPlumb
+import WzVerif.Gen.RoutingGlue
+import WzVerif.Lemmas.RoutingFactory
 namespace Wz.Props.C04
 open Wz Wz.Routing
 
@@ -22,6 +24,50 @@ theorem quote_safe_sets_match_source :
     Gen.Routing.safeSites.contains ("routing/converters.py", "to_url", "quote", pathSafe) = true ∧
     Gen.Routing.safeSites.contains ("routing/rules.py", "_compile_builder", "quote", pathSafe) = true ∧
     Gen.Routing.safeSites.contains ("urls.py", "_urlencode", "urlencode", querySafe) = true := by
+  decide +kernel
+
+/-- **rule_build_returns_builder_result.** In the current source `Rule.build` hands back exactly what the
+compiled builder returned (`self._build_unknown(**values)` / `self._build(**values)`, or `None` after a
+`ValidationError`): no statement rewrites the built URL afterwards — the model's `Rule.build` is the
+compiled builder (`buildSide` + query), nothing else. -/
+theorem rule_build_returns_builder_result :
+    Gen.RoutingGlue.ruleBuildReturns = ["self._build_unknown(**values)", "self._build(**values)", "None"] ∧
+    Gen.RoutingGlue.ruleBuildOther = [] := by
+  decide
+
+/-- **build_order_source_pinned.** The three small decision functions behind rule selection are, in the
+current source, the expressions the model transcribes: `build_compare_key` = (alias last, more
+arguments first, more defaults first) — `Rule.buildCompareKey`; `suitable_for` — `Rule.suitableFor`;
+`provides_defaults_for` — `providesDefaultsFor`. -/
+theorem build_order_source_pinned :
+    Gen.RoutingGlue.buildCompareKey =
+      ["return (1 if self.alias else 0, -len(self.arguments), -len(self.defaults or ()))"] ∧
+    Gen.RoutingGlue.suitableFor =
+      ["if method is not None and self.methods is not None and (method not in self.methods): return False",
+       "defaults = self.defaults or ()",
+       "for key in self.arguments: if key not in defaults and key not in values: return False",
+       "if defaults: for key, value in defaults.items(): if key in values and value != values[key]: return False",
+       "return True"] ∧
+    Gen.RoutingGlue.providesDefaultsFor =
+      ["return bool(not self.build_only and self.defaults and (self.endpoint == rule.endpoint) and (self != rule) and (self.arguments == rule.arguments))"] := by
+  decide +kernel
+
+/-- **converter_overrides_pinned.** Which converter class defines which conversion, in the current
+source: `to_python` / `to_url` are defined by `BaseConverter`, `NumberConverter` (the pair proved equal to
+the model in `C04T`) and `UUIDConverter`, `to_url` alone by `AnyConverter`; `IntegerConverter` and
+`FloatConverter` only set `regex` / `num_convert` — no other override exists (a new `to_url` on one of
+the subclasses would change what `Conv.float` / `Conv.int` have to model). -/
+theorem converter_overrides_pinned :
+    Gen.RoutingGlue.converterClasses =
+      [("ValidationError", ["ValueError"], [], []),
+       ("BaseConverter", [], ["__init__", "__init_subclass__", "to_python", "to_url"], ["part_isolating", "regex", "weight"]),
+       ("UnicodeConverter", ["BaseConverter"], ["__init__"], []),
+       ("AnyConverter", ["BaseConverter"], ["__init__", "to_url"], []),
+       ("PathConverter", ["BaseConverter"], [], ["part_isolating", "regex", "weight"]),
+       ("NumberConverter", ["BaseConverter"], ["__init__", "signed_regex", "to_python", "to_url"], ["weight"]),
+       ("IntegerConverter", ["NumberConverter"], [], ["regex"]),
+       ("FloatConverter", ["NumberConverter"], ["__init__"], ["num_convert", "regex"]),
+       ("UUIDConverter", ["BaseConverter"], ["to_python", "to_url"], ["regex"])] := by
   decide +kernel
 
 /-- **unquote_quote.** Percent-decoding (what a server does to the request path) undoes the quoting the
@@ -350,6 +396,120 @@ example : (match mkMap {} [exSpec, { toks := [.slash, .lit "other".toList, .slas
        | _ => false)
     | none => false) = true := by decide +kernel
 
+/-- `MapAdapter.match` returns the matcher's rule unless `get_default_redirect` finds a sibling -/
+theorem matchAdapter_of_ok {m : RMap} {a : Adapter} {p : Str} {meth : Option Str} {qa : QueryArgs} {ws : Option Bool}
+    {r : Rule} {vals : List (Str × Value)}
+    (hsm : matchSM m.root m.cfg.mergeSlashes m.cfg.redirectDefaults (reqOf a meth ws) (domainPartOf m.cfg a) (pathPart p) = .ok r vals)
+    (hnored : m.cfg.redirectDefaults = true →
+      getDefaultRedirect m a r (reqOf a meth ws).method vals (effQa a qa) (rulesByEndpoint m.rules r.endpoint) = .ok none) :
+    matchAdapter m a p meth qa ws = .matched r vals := by
+  simp only [matchAdapter, hsm]
+  cases hrd : m.cfg.redirectDefaults with
+  | false => simp
+  | true => simp [hnored hrd]
+
+/-- **match_build_adapter_partial.** The law on whole URLs at the level of the public API:
+`MapAdapter.match` (bound the way a server binds it for the URL `MapAdapter.build` returned: host ->
+subdomain, script root stripped, path percent-decoded) returns `matched r values` for the rule the URL
+was built from — under the hypotheses of `match_build_url_partial`, and provided no rule of the endpoint
+that precedes `r` in build order provides defaults for `r` and is suitable for the matched values
+(`hnored`, stated as "`get_default_redirect` finds nothing"; with `redirect_defaults` off there is nothing to
+assume). That proviso is not an artefact: `match_build_crossed_defaults_false` (F04c) below. -/
+theorem match_build_adapter_partial {cfg : MapCfg} {specs : List RuleSpec} {m : RMap} (hm : mkMap cfg specs = some m)
+    (hhm : m.cfg.hostMatching = false) {a : Adapter} (hs : ScriptOK a) (hserver : a.serverName ≠ [])
+    {r : Rule} (hr : r ∈ m.rules) (hbo : r.spec.buildOnly = false) {i : Nat} {sp : RuleSpec}
+    (hbind : bindRule cfg i sp = some r)
+    (hnodom : (if cfg.hostMatching then sp.domain.getD [] else sp.domain.getD cfg.defaultSubdomain) = [])
+    (values : List (Str × Value)) {ep : Str} {method : Option Str} {fe au : Bool} {dom u : Str} {w : Bool} {upath : Str}
+    (hp : partialBuild m.cfg a m.rules ep values method au = .ok (some (dom, u, w)))
+    (hb : r.build m.cfg values au = .ok (dom, u))
+    (hgram : GramToks r.pathToks) (hslash : ∃ toks', r.pathToks = .slash :: toks')
+    (hbuild : buildSide r values (traceToks r.pathToks) = .ok upath)
+    (hclosed : UrlsClosed r values r.pathToks) (hnocut : UrlsNoCut r values r.pathToks)
+    (hdom : ∀ ts, valueTexts r values r.pathToks = some ts →
+      IsoNoSlash r.pathToks ts ∧ PathTailOK r.pathToks ts ∧ AllAccept ((tokConvs r.pathToks).map Conv.kind) ts)
+    (hrt : VarsRoundTrip r values r.pathToks)
+    (hsingle : ∀ t, upath = '/' :: t → t.head? ≠ some '/' ∧ (unquote t).head? ≠ some '/')
+    (hhost : ∀ c ∈ getHost false a (some dom), c ≠ '/')
+    (meth : Option Str) (qa : QueryArgs) (ws : Option Bool)
+    (hok : ruleOK (reqOf a meth ws) r = true) (halias : (r.alias && m.cfg.redirectDefaults) = false)
+    (hothers : ∀ r' ∈ m.rules, r' ≠ r → ∀ via, walkVia via r'.parts (segments [] (unquote upath)) = none)
+    (hnored : m.cfg.redirectDefaults = true →
+      getDefaultRedirect m { a with subdomain := some dom } r (reqOf a meth ws).method
+        (dictUpdate (builtPairs r values r.pathToks) r.defaults) (effQa a qa) (rulesByEndpoint m.rules r.endpoint) = .ok none) :
+    ∃ url pathInfo, adapterBuild m.cfg a m.rules ep values method fe au = .ok url ∧
+      readBuilt m.cfg a url = some ({ a with subdomain := some dom }, pathInfo) ∧
+      matchAdapter m { a with subdomain := some dom } pathInfo meth qa ws =
+        .matched r (dictUpdate (builtPairs r values r.pathToks) r.defaults) := by
+  obtain ⟨url, pathInfo, h1, h2, h3⟩ := match_build_url_partial (fe := fe) hm hhm hs hserver hr hbo hbind hnodom values hp hb hgram hslash
+    hbuild hclosed hnocut hdom hrt hsingle hhost hok m.cfg.mergeSlashes m.cfg.redirectDefaults halias hothers
+  refine ⟨url, pathInfo, h1, h2, ?_⟩
+  -- the rule has no domain rule: the built domain part is empty
+  have hcfg : m.cfg = cfg := (mkMap_built hm).cfg_eq
+  have hspec : r.spec = sp := by
+    simp only [bindRule] at hbind
+    split at hbind
+    · cases hbind; rfl
+    · cases hbind
+  have hdomnil : dom = [] := by
+    have hdt : r.domToks m.cfg = [] := by
+      simp only [Rule.domToks, hspec, hcfg]; exact hnodom
+    simp only [Rule.build, hdt, traceToks, buildSide, bind, Except.bind, pure, Except.pure] at hb
+    split at hb
+    · cases hb
+    · simp only [Except.ok.injEq, Prod.mk.injEq] at hb
+      exact hb.1.symm
+  apply matchAdapter_of_ok
+  · have hdp : domainPartOf m.cfg { a with subdomain := some dom } = [] := by
+      simp [domainPartOf, hhm, hdomnil]
+    rw [hdp]
+    exact h3
+  · exact hnored
+
+def specsF04c : List RuleSpec :=
+  [ { toks := [.slash, .lit "a".toList, .slash, .var (.int 0 false none none) "x".toList, .slash], endpoint := "e".toList,
+      defaults := [("y".toList, .int 1)] },
+    { toks := [.slash, .lit "b".toList, .slash, .var (.int 0 false none none) "y".toList], endpoint := "e".toList,
+      defaults := [("x".toList, .int 2)] } ]
+
+/-- **F04c (witness): `hnored` is needed on the unchanged code.** `Map([Rule('/a/<int:x>/', endpoint='e',
+defaults={'y': 1}), Rule('/b/<int:y>', endpoint='e', defaults={'x': 2})])` — distinct literal first
+segments, equal argument sets, crossed variable / default arguments: `build('e', {'y': 1})` is `/b/1`
+(the only rule suitable for the given values); `match('/b/1')` converts to `{'y': 1, 'x': 2}`, for which
+the first rule now "provides defaults", and answers with a redirect to `/a/2/` instead of the match.
+The target denotes the same endpoint and arguments (C12), but build -> match is not the identity. -/
+theorem match_build_crossed_defaults_false :
+    (match mkMap {} specsF04c with
+     | some m =>
+       let a : Adapter := { serverName := "example.org".toList, scriptName := "/".toList, subdomain := some [],
+                            urlScheme := "http".toList, defaultMethod := "GET".toList, queryArgs := .none }
+       (match adapterBuild m.cfg a m.rules "e".toList [("y".toList, Value.int 1)] none false true with
+        | .ok u =>
+          u == "/b/1".toList &&
+          (match matchAdapter m a u none .none none with
+           | .redirect url => url == "http://example.org/a/2/".toList
+           | _ => false) &&
+          (match matchAdapter m a "/a/2/".toList none .none none with
+           | .matched r vals => r.idx == 0 && vals == [("x".toList, Value.int 2), ("y".toList, Value.int 1)]
+           | _ => false)
+        | .error _ => false)
+     | none => false) = true := by decide +kernel
+
+-- non-vacuity of `match_build_adapter_partial`'s proviso: on the map of `exSpec` + another rule nothing provides defaults
+example : (match mkMap {} [exSpec, { toks := [.slash, .lit "other".toList, .slash, .var (.string 1 none none) "s".toList], endpoint := "o".toList }] with
+    | some m =>
+      (match m.rules with
+       | [r, _] =>
+         (match getDefaultRedirect m adapterEx r "GET".toList (dictUpdate (builtPairs r exValues r.pathToks) r.defaults) .none
+                  (rulesByEndpoint m.rules r.endpoint) with
+          | .ok none => true
+          | _ => false) &&
+         (match matchAdapter m adapterEx "/r/id--05.html/a b;?#%é/".toList none .none none with
+          | .matched r1 vals => r1.idx == 0 && vals == exValues
+          | _ => false)
+       | _ => false)
+    | none => false) = true := by decide +kernel
+
 /-- **build_match_fixpoint_partial (rule level).** Rebuilding a rule's path from what the match of its own
 URL returns — the built values per variable plus the rule's defaults (`match_build_partial`) — gives the
 same text: `build(match(build(values))) = build(values)` for the rule that was selected. -/
@@ -384,18 +544,122 @@ theorem build_match_fixpoint_map_level_false :
         | _ => false)
      | none => false) = true := by decide +kernel
 
--- OPEN (P1): match_build stated on whole URLs — matchAdapter (readBuilt (adapterBuild endpoint vals)) = matched r vals —
--- and build_match_fixpoint — build (match (build r vals)) = build r vals.
--- Proved here: the value-level halves (`unquote_quote` for literal text and string/path values,
--- `toPython_toUrl_*` for every converter) and the rule-level half for every rule of the grammar
--- (`rule_build_match_partial`: the rule's own parts admit what the rule builds, with the decoded
--- converter outputs as groups; isolating converters and one path converter), the selection of a suitable
--- rule by `MapAdapter.build` (`build_selects_suitable_rule`) and the map-level law on the decoded path
--- (`match_build_partial`), and the same on the full URL text `MapAdapter.build` returns, relative or
--- external, with or without query (`match_build_url_partial`). Missing, for the converse law at map
--- level, that `MapAdapter.build` selects the same rule again for the matched values — false in general
--- (F04b, `build_match_fixpoint_map_level_false`); `build_match_fixpoint_partial` is the law for the
--- selected rule itself. Both laws are checked on the real code and on the model by
--- stream `build-match` (oracle: match(unquote(build)) = (endpoint, values) and build(match(url)) = url).
+/-! ### rule factories (`Submount`, `Subdomain`, `EndpointPrefix`, `RuleTemplate`)
+
+`Model/RoutingFactory.lean` expands factories the way `get_rules` does (the `build-match` stream hands the
+driver the inner rule + its factories and builds the nested factory objects on the real side). The
+theorems say that the expansion commutes with compiling, matching and building. -/
+
+/-- **submount_expansion.** `Submount(path, [rule])` yields a copy of the rule whose rule string is
+`path.rstrip('/')` + the rule's; a trailing slash on the mount path makes no difference. The copy
+(`Rule.empty()`) keeps defaults, subdomain / host, methods, build_only, endpoint, strict_slashes and alias —
+and NOT `merge_slashes` / `websocket` (`get_empty_kwargs` does not hand them on: the copy takes the map's
+merge setting and is never a websocket rule; `factory_copy_drops_merge_and_websocket`). -/
+theorem submount_expansion (hm : Bool) (lits : List Str) (s : RuleSpec) :
+    (Wrap.submount (mountToks lits)).apply hm s = .ok { s.emptyCopy with toks := mountToks lits ++ s.toks } ∧
+    (Wrap.submount (mountToks lits ++ [.slash])).apply hm s = .ok { s.emptyCopy with toks := mountToks lits ++ s.toks } := by
+  simp [Wrap.apply, rstripSlashToks_mount, rstripSlashToks_mount_slash]
+
+/-- **submount_compile_commutes.** Compiling the mounted rule string (`_parse_rule`, with or without slash
+merging) gives the inner rule's parts behind one static part per mount segment, and the same converters. -/
+theorem submount_compile_commutes (lits : List Str) (toks' : List Tok) :
+    parseRule (mountToks lits ++ .slash :: toks') =
+      (parseToks toks' {}).map (fun pc => (.static [] :: (lits.map Part.static ++ pc.1), pc.2)) ∧
+    parseRule (.slash :: toks') = (parseToks toks' {}).map (fun pc => (.static [] :: pc.1, pc.2)) ∧
+    mergeSlashToks (mountToks lits ++ .slash :: toks') = mountToks lits ++ mergeSlashToks (.slash :: toks') := by
+  refine ⟨?_, ?_, mergeSlashToks_mount lits _⟩
+  · simp only [parseRule]; exact parseToks_mount lits toks'
+  · have := parseToks_mount [] toks'
+    simpa [parseRule, mountToks] using this
+
+/-- **submount_match_commutes.** The mounted rule admits the path `mount + p` exactly when the inner rule
+admits `p` — in each of the three ways (directly, with an extra final slash, lacking the final slash) —
+and extracts the same converter groups; behind any one-segment domain part `d` (static subdomain /
+host text or a converter segment). Mount segments contain no '/'. -/
+theorem submount_match_commutes (via : Via) (d : Part) (lits : List Str) (hl : ∀ s ∈ lits, noSlash s)
+    {toks' : List Tok} {ps : List Part} {cs : List (Str × Conv)} (hparse : parseToks toks' {} = some (ps, cs))
+    (dom p : Str) (hd : ∀ xs, step d (dom :: xs) = (step d [dom]).map fun ar => (ar.1, xs)) :
+    walkVia via (d :: .static [] :: (lits.map Part.static ++ ps)) (segments dom (mountText lits ++ '/' :: p)) =
+      walkVia via (d :: .static [] :: ps) (segments dom ('/' :: p)) := by
+  have hps := parseToks_ne_nil toks' {} hparse
+  simp only [segments, splitOn_mount lits hl p]
+  have h0 : splitOn '/' ('/' :: p) = [] :: splitOn '/' p := by simp [splitOn]
+  rw [h0]
+  exact walkVia_submount via d lits ps hps dom (splitOn '/' p) hd
+
+/-- **submount_build_commutes.** The mounted rule builds the (quoted) mount path followed by exactly what
+the inner rule builds from the same values. -/
+theorem submount_build_commutes (r : Rule) (values : List (Str × Value)) (lits : List Str) (toks : List Tok) :
+    buildSide r values (traceToks (mountToks lits ++ toks)) =
+      (buildSide r values (traceToks toks)).map fun u => (lits.flatMap fun s => '/' :: quote pathSafe s) ++ u := by
+  rw [traceToks_append]; exact buildSide_mount r values lits _
+
+/-- **endpoint_prefix_and_subdomain_expansion.** `EndpointPrefix` changes nothing but the endpoint (the same
+rule string, hence the same parts, matches and URLs); `Subdomain` nothing but the subdomain rule — and nothing
+at all under host matching, where the `host` of the rule is compiled instead. -/
+theorem endpoint_prefix_and_subdomain_expansion (hm : Bool) (p : Str) (d : List Tok) (s : RuleSpec) :
+    (Wrap.endpointPrefix p).apply hm s = .ok { s.emptyCopy with endpoint := p ++ s.endpoint } ∧
+    (Wrap.subdomain d).apply false s = .ok { s.emptyCopy with domain := some d } ∧
+    (Wrap.subdomain d).apply true s = .ok s.emptyCopy := by
+  simp [Wrap.apply]
+
+def specWs : RuleSpec :=
+  { toks := [.slash, .lit "echo".toList], endpoint := "e".toList, websocket := true, merge := some false, methods := some ["GET".toList] }
+
+/-- **factory_copy_drops_merge_and_websocket (witness).** On the unchanged code `Submount('/x', [Rule('/echo',
+websocket=True, merge_slashes=False)])` yields an ordinary HTTP rule with the map's merge setting: a plain
+`GET /x/echo` is matched. (Observed defect of `Rule.get_empty_kwargs`, outside the three property texts; the
+model follows the code, the `build-match` stream compares.) -/
+theorem factory_copy_drops_merge_and_websocket :
+    (match (Wrap.submount (mountToks ["x".toList])).apply false specWs with
+     | .ok s' =>
+       s'.websocket == false && s'.merge == none &&
+       (match mkMap {} [s'] with
+        | some m =>
+          (matchAdapter m { serverName := "example.org".toList, scriptName := "/".toList, subdomain := some [],
+                            urlScheme := "http".toList, defaultMethod := "GET".toList, queryArgs := .none }
+             "/x/echo".toList none .none none).isMatched
+        | none => false)
+     | .error _ => false) = true := by decide +kernel
+
+-- non-vacuity of the commutation theorems: `Submount('/blog/', [Rule('/entry/<slug>')])` on the path `/blog/entry/a b`
+example : (match (Wrap.submount (mountToks ["blog".toList] ++ [.slash])).apply false
+              { toks := [.slash, .lit "entry".toList, .slash, .var (.string 1 none none) "slug".toList], endpoint := "show".toList } with
+    | .ok s' =>
+      (match mkMap {} [s'] with
+       | some m =>
+         let a : Adapter := { serverName := "example.org".toList, scriptName := "/".toList, subdomain := some [],
+                              urlScheme := "http".toList, defaultMethod := "GET".toList, queryArgs := .none }
+         (match matchAdapter m a "/blog/entry/a b".toList none .none none with
+          | .matched _ vals => vals == [("slug".toList, Value.str "a b".toList)]
+          | _ => false) &&
+         (match adapterBuild m.cfg a m.rules "show".toList [("slug".toList, Value.str "a b".toList)] none false true with
+          | .ok u => u == "/blog/entry/a%20b".toList
+          | .error _ => false)
+       | none => false)
+    | .error _ => false) = true := by decide +kernel
+
+/-- **template_expansion (witness).** `RuleTemplate([Rule('/$name/<int:id>', endpoint='$name.show', alias=True)])(name='user')`
+yields `Rule('/user/<int:id>', endpoint='user.show')` — `string.Template` substitution in rule string and endpoint —
+and drops `alias` (also `merge_slashes`, `websocket`, `host`: `RuleTemplateFactory` passes seven arguments on). -/
+theorem template_expansion :
+    (match (Wrap.template [("name".toList, "user".toList)]).apply false
+        { toks := [.slash, .lit "$name".toList, .slash, .var (.int 0 false none none) "id".toList],
+          endpoint := "${name}.show$$".toList, alias := true } with
+     | .ok s' => decide (s' = { toks := [.slash, .lit "user".toList, .slash, .var (.int 0 false none none) "id".toList],
+                                endpoint := "user.show$".toList, alias := false })
+     | .error _ => false) = true := by
+  decide +kernel
+
+-- Closed in round 3: match_build on whole URLs at the level of `MapAdapter.match` (`match_build_adapter_partial`), with the
+-- one proviso that `get_default_redirect` finds nothing - necessary on the unchanged code (F04c,
+-- `match_build_crossed_defaults_false`); rule factories (`submount_*_commutes`, `endpoint_prefix_and_subdomain_expansion`,
+-- `template_expansion`).
+-- OPEN: build_match_fixpoint at map level - that `MapAdapter.build` selects the same rule again for the matched values - is
+-- false in general (F04b, `build_match_fixpoint_map_level_false`; F04c's second face); `build_match_fixpoint_partial`
+-- is the law for the selected rule. A sufficient syntactic condition (all rules of the endpoint have equal
+-- argument sets and no crossed defaults) is not carried as a theorem; the stream `build-match` checks both laws on
+-- the real code and on the model (oracle: match(unquote(build)) = (endpoint, values) and build(match(url)) = url).
+-- Host-matching maps are outside `match_build_url_partial` (`hhm`); floats: canonical decimal text only.
 
 end Wz.Props.C04
